@@ -37,7 +37,7 @@ func (c C14Case) hash() uint64 {
 	return hashBytes([]byte(c.Obj.Kind + "\x00" + c.Obj.Expr + "\x00" + c.Obj.Opts.Hook + c.Obj.Opts.Unknown + c.Obj.Opts.Tag + fmt.Sprint(c.Obj.Opts.Max) + "\x00" + c.Datum.String() + c.Op + pre))
 }
 
-var mixedFamilyNames = []string{"eq", "path", "in", "re", "poison", "nested", "tslice", "tptr", "filter", "tfilter", "eq", "path", "ieq", "neq", "fold", "qfilter", "deep", "dfilter", "ikin"}
+var mixedFamilyNames = []string{"eq", "path", "in", "re", "poison", "nested", "tslice", "tptr", "filter", "tfilter", "eq", "path", "ieq", "neq", "fold", "qfilter", "deep", "dfilter", "ikin", "keyre"}
 
 func genClasses(r *plan.Rand) string {
 	n := r.Range(2, 8)
@@ -75,6 +75,22 @@ func GenC14Case(seed uint64, idx int) C14Case {
 			c.Prelude = &DatumSpec{Gen: "mixed:" + fam + ":" + string(b) + ":alt", Seed: 1}
 		}
 		body := MixedFamilies[fam]
+		if fam == "keyre" {
+			// the body looks at the key only: one key is decisive, every other key runs
+			// into a pattern the parser accepts and regexp rejects (reported at
+			// evaluation time); the element values play no part
+			c.Op = "eval"
+			kb := []string{"k", "k, _", "k, v"}[r.Intn(3)]
+			sel := []string{"m", `"/m"`}[r.Intn(2)]
+			bad := []string{`^(?!internal-).*`, `(`, `a{2,1}`, `[z-a]`}[r.Intn(4)]
+			key := []string{"k1", "k0", "instance-07", "k2"}[r.Intn(4)]
+			if r.Chance(0.5) {
+				c.Obj = ObjSpec{Kind: "evaluator", Expr: fmt.Sprintf("any %s as %s { k == %q or k matches %q }", sel, kb, key, bad)}
+			} else {
+				c.Obj = ObjSpec{Kind: "evaluator", Expr: fmt.Sprintf("all %s as %s { k != %q and k not matches %q }", sel, kb, key, bad)}
+			}
+			return c
+		}
 		if fam == "filter" || fam == "tfilter" || fam == "qfilter" || fam == "dfilter" {
 			c.Op = "exec"
 			c.Obj = ObjSpec{Kind: "filter", Expr: body}
